@@ -202,8 +202,14 @@ class Run:
             self.solver = Solver(self.problem)
             self.sp = self.solver.parameters
         else:
+            extra = {}
+            if params.get("startPoint") is not None:
+                # SolverParameters.startPoint is part of the public parameter set (the pinned code ignores it)
+                from iOpt.trial import Point
+                import numpy as np
+                extra["startPoint"] = Point(np.array(params["startPoint"], dtype=np.double), [])
             self.sp = SolverParameters(eps=params["eps"], r=params["r"], itersLimit=params["itersLimit"],
-                                       evolventDensity=recipe.get("density", 10), refineSolution=refine)
+                                       evolventDensity=recipe.get("density", 10), refineSolution=refine, **extra)
             self.solver = Solver(self.problem, parameters=self.sp)
         self.rec = None
         if record:
